@@ -74,7 +74,30 @@ def c03_jobs(tier):
     return jobs
 
 
+def c04_jobs(tier):
+    q = tier == 'quick'
+    jobs = []
+    for M in range(1, (9 if q else 12) + 1):
+        jobs.append(J('root', 'H_C04_lc_block', [M]))
+    for M in ((10, 12, 14) if q else (13, 14, 16, 18, 20)):
+        jobs.append(J('root', 'H_C04_lc_crash', [M]))
+    for m in ((3, 4, 5, 6) if q else (2, 3, 4, 5, 6, 7, 8)):
+        for n in (m, 2 * m, 2 * m + 1, 3 * m - 1):
+            jobs.append(J('root', 'H_C04_lc_proto', [n, m]))
+    for m in ((2, 3) if q else (2, 3, 4)):
+        for n in (m * m, m * m + 1, 2 * m * m, 2 * m * m + 3):
+            jobs.append(J('root', 'H_C04_rank', [n, m]))
+    return jobs
+
+
 PROPS = {
+    'C04': {
+        'jobs': c04_jobs,
+        'bounds': {'quick': 'linearComplexity kernel: crash freedom + shortest-LFSR definition for every block of M<=9 bits, crash freedom M in {10,12,14}; LinearComplexityProto m in 3..6, N<=2 blocks + tail; MatrixRankProto with m x m matrices m in {2,3}, N<=2 + tail',
+                   'thorough': 'LC kernel definition M<=12, crash freedom M<=20; Proto m<=8; rank m<=4'},
+        'outside': 'production sizes (32x32 matrices, m=500/1000/5000 blocks) are outside: the same code runs there but neither the definitional spec nor the merged symbolic elimination is within reach; Maurer: see evidence; binary64 rounding; igamc accuracy',
+        'assumptions': ['float64 tails as exact reals; igamc/erfc/log/pow uninterpreted', 'class of T decided from the integer L (exact: offsets stay within (-1/2,1/2))'],
+    },
     'C03': {
         'jobs': c03_jobs,
         'bounds': {'quick': 'binary derivative k in {3,7,15}, autocorrelation d in {1,2,8,16,32}: n<=32; cumulative sums n<=16, both directions, every excursion z=1..n (one obligation per z, exhaustiveness of the split proven)',
